@@ -4,9 +4,11 @@ package commonmark
 
 // C06 — canonical documents render to exactly the HTML they denote.
 
-// H_C06(budget, flags): flags bit 0 = CRLF line endings, bit 1 = full spelling menus.
+// H_C06(budget, flags): flags bit 0 = CRLF line endings, bit 1 = full spelling menus,
+// bit 2 = plain inline content (words, soft and hard breaks only), which
+// lets the node budget go into block structure.
 func H_C06(budget, flags int) {
-	g := &cgen{budget: budget, maxDepth: 2, crlf: flags&1 != 0, rich: flags&2 != 0}
+	g := &cgen{budget: budget, maxDepth: 2, crlf: flags&1 != 0, rich: flags&2 != 0, plain: flags&4 != 0}
 	doc, want := g.document(2)
 	blocks, refs := Parse(cloneBytes(doc))
 	got := renderWith(&HTMLRenderer{ReferenceMap: refs}, blocks)
@@ -73,5 +75,93 @@ func H_C06_verbatim(k, mode int) {
 	blocks, refs := Parse(doc)
 	got := renderWith(&HTMLRenderer{ReferenceMap: refs}, blocks)
 	check(vsame(got, want), "C06.code-verbatim")
+	vdigest(got)
+}
+
+// H_C06_tabs(form, _): the column / tab arithmetic of C06. The line is
+//   P  k spaces  TAB  m spaces  "w"        (k, m in 0..3 are solver variables)
+// behind a container prefix P, and the expected reading is computed from the spec's
+// tab rule (tab stops every four columns; a block quote marker takes one column of
+// following whitespace; a list marker followed by 1-4 columns of whitespace sets the
+// content column there, by 5 or more sets it one column after the marker and the
+// rest is an indented code block):
+//   form 0: top level                     form 1: ">" block quote
+//   form 2: "-" list item                 form 3: "> " then the run (quote, run starts at column 2)
+//   form 4: "- >" (quote inside a list item, marker at column 2)
+// The content is a paragraph "w" when fewer than four columns of indentation remain
+// and an indented code block holding the remaining columns as spaces otherwise.
+func H_C06_tabs(form, _ int) {
+	k := vconcrete(nondetInt(0, 3))
+	m := vconcrete(nondetInt(0, 3))
+	var doc []byte
+	col := 0 // column after the prefix, before the run
+	switch form {
+	case 1:
+		doc = append(doc, '>')
+		col = 1
+	case 2:
+		doc = append(doc, '-')
+		col = 1
+	case 3:
+		doc = append(doc, "> "...)
+		col = 2
+	case 4:
+		doc = append(doc, "- >"...)
+		col = 3
+	}
+	start := col
+	for i := 0; i < k; i++ {
+		doc = append(doc, ' ')
+		col++
+	}
+	doc = append(doc, '\t')
+	col += 4 - col%4
+	for i := 0; i < m; i++ {
+		doc = append(doc, ' ')
+		col++
+	}
+	doc = append(doc, 'w', '\n')
+	width := col - start // columns of whitespace in the run
+	open, cl := "", ""
+	indent := width // columns of indentation seen by the contained block
+	switch form {
+	case 1, 4:
+		indent = width - 1 // the quote marker takes one column
+		open, cl = "<blockquote>", "</blockquote>"
+		if form == 4 {
+			open, cl = "<ul><li><blockquote>", "</blockquote></li></ul>"
+		}
+	case 3:
+		open, cl = "<blockquote>", "</blockquote>"
+	case 2:
+		open, cl = "<ul><li>", "</li></ul>"
+		if width <= 4 {
+			indent = 0 // content column = marker + width
+		} else {
+			indent = width - 1 // content column one past the marker
+		}
+	}
+	var want []byte
+	want = append(want, open...)
+	if indent >= 4 {
+		want = append(want, "<pre><code>"...)
+		for i := 0; i < indent-4; i++ {
+			want = append(want, ' ')
+		}
+		want = append(want, "w\n</code></pre>"...)
+	} else if form == 2 {
+		want = append(want, 'w') // tight list item: no <p>
+	} else {
+		want = append(want, "<p>w</p>"...)
+	}
+	want = append(want, cl...)
+	blocks, refs := Parse(cloneBytes(doc))
+	got := renderWith(&HTMLRenderer{ReferenceMap: refs}, blocks)
+	if !vsame(normHTML(got), normHTML(want)) {
+		vnote("doc=" + string(doc))
+		vnote("got=" + string(normHTML(got)))
+		vnote("want=" + string(normHTML(want)))
+	}
+	check(vsame(normHTML(got), normHTML(want)), "C06.tab-columns")
 	vdigest(got)
 }
